@@ -24,6 +24,18 @@ def norm(node):
     return ' '.join(line.strip() for line in text.splitlines())
 
 
+def walk_with_lambdas(fn):
+    """Like walk_no_nested but descends into lambdas (their bodies run in the
+    function's own activations); nested defs and classes are still skipped."""
+    stack = list(reversed(list(ast.iter_child_nodes(fn))))
+    while stack:
+        cur = stack.pop()
+        yield cur
+        if isinstance(cur, (ast.FunctionDef, ast.AsyncFunctionDef, ast.ClassDef)):
+            continue
+        stack.extend(reversed(list(ast.iter_child_nodes(cur))))
+
+
 def short(node, limit=140):
     text = norm(node)
     return text if len(text) <= limit else text[:limit - 3] + '...'
